@@ -26,11 +26,11 @@ PROP = "C14"
 
 CORPORA = {
     "c1": [
-        dict(cid="s1", flags="\\Seen \\Answered", day=10, sent="Wed, 10 Jan 2024 12:00:00 +0000", frm="Alice Example <alice@example.com>", to="bob@example.org",
+        dict(cid="s1", flags="\\Seen \\Answered", day=10, sent="Wed, 10 Jan 2024 22:15:00 -0800", frm="Alice Example <alice@example.com>", to="bob@example.org",
              subj="Quarterly REPORT attached", cc="carol@example.net", body="Please find the report.\r\nRegards, Alice\r\n"),
         dict(cid="s2", flags="\\Flagged kwone", day=11, sent="Thu, 11 Jan 2024 23:59:59 +0000", frm="bob@example.org", to="Alice <alice@example.com>",
              subj="re: quarterly report", body="Thanks.\r\nNothing else.\r\n"),
-        dict(cid="s3", flags="\\Deleted \\Draft", day=11, sent="Fri, 12 Jan 2024 00:00:01 +0000", frm="dave@example.com", to="list@example.com",
+        dict(cid="s3", flags="\\Deleted \\Draft", day=11, sent="Fri, 12 Jan 2024 01:30:00 +0500", frm="dave@example.com", to="list@example.com",
              subj="unrelated topic", bcc="hidden@example.com", body="A much longer body " + "x" * 300 + "\r\nswimming pool\r\n"),
         dict(cid="s4", flags="", day=12, sent=None, frm="eve@example.com", to="alice@example.com", subj="", body="no date header here\r\n"),
         dict(cid="s5", flags="\\Seen kwone kwtwo", day=13, sent="Sat, 13 Jan 2024 08:00:00 -0800", frm="=?utf-8?q?Fr=C3=A9d?= <fred@example.com>", to="bob@example.org",
@@ -78,7 +78,7 @@ def atoms(facts):
     for sz in (sizes[0], sizes[len(sizes) // 2], sizes[-1]):
         for d in (-1, 0, 1):
             A += [("LARGER", sz + d), ("SMALLER", sz + d)]
-    for day in (10, 11, 12):
+    for day in (10, 11, 12, 13):  # (two Date headers are a different day in UTC than in their own zone: RFC 3501 disregards time and zone)
         for op in ("BEFORE", "ON", "SINCE", "SENTBEFORE", "SENTON", "SENTSINCE"):
             A.append((op, f"{day}-Jan-2024"))
     A += [("BEFORE", "1-Jan-2020"), ("SINCE", "1-Jan-2030"), ("ON", "29-Feb-2024")]
